@@ -31,16 +31,20 @@ def run(c):
         lambda: c.mc("GatewayRouting", "GatewayRoutingMC.%s.cfg" % c.tier, workers=4, timeout=3000),
         lambda: _gw.generator(c, "GatewayRoutingGen", "GatewayRoutingGen.%s.cfg" % c.tier),
         c=c, names=("build", "mc", "gen"))
+    outs = [g.out]
+    if c.thorough:   # policies of three rules over a small rule alphabet
+        outs.append(_gw.generator(c, "GatewayRoutingGen", "GatewayRoutingGen.thorough3.cfg").out)
     lists = {k: v for (k, v) in _gw.printed(g.out, "LIST", nstr=2)}
     if set(lists) != {"pkts", "pairs", "queries"}:
         raise vlib.Infra("generator did not print its lists: %s" % sorted(lists))
     scn = {"table": [], "pol": []}
     seen = set()
-    for kind, s in _gw.printed(g.out, "SCN", nstr=2):
-        k = kind + json.dumps(s, sort_keys=True)
-        if k not in seen:
-            seen.add(k)
-            scn[kind].append(s)
+    for o in outs:
+        for kind, s in _gw.printed(o, "SCN", nstr=2):
+            k = kind + json.dumps(s, sort_keys=True)
+            if k not in seen:
+                seen.add(k)
+                scn[kind].append(s)
     if not scn["table"] or not scn["pol"]:
         raise vlib.Infra("generator printed no scenarios")
     nchunks = 8 if c.thorough else 4
